@@ -270,27 +270,22 @@ def check(ctx):
         case = {"which": which, "s": s, "t": t, "sigma": sig, "k": k, "precision": prec}
         ctx.case(case, True, tag="iv_" + which)
         ctx.traces += 1
-        # binary prices are not monotone in sigma over the whole bracket even for s<0: accept any sigma' reproducing the price
+        # On the generated states every price is monotone in sigma over the whole bracket (binary: t = -s keeps
+        # sigma^2 t < -2s; American binary: hitting probability; European / lookback: vega > 0), so the recovered
+        # volatility must be within the REQUESTED precision of the generating one.
         got = float(iv)
-        if which in ("binary", "american_binary"):
-            if which == "binary":
-                p2 = float(m.price(S, T_, torch.tensor([got], dtype=dt)))
-            else:
-                p2 = float(m.price(S, M, T_, torch.tensor([got], dtype=dt)))
-            if abs(p2 - float(p)) > 1e-4 * (prec / 1e-6 if prec > 1e-6 else 1.0):
-                ctx.fail("implied volatility does not reproduce the price", case, key=f"implied_volatility:{which}", detail={"iv": got, "price": float(p), "reprice": p2})
-        elif abs(got - sig) > 2 * prec:
+
+        def reprice(sg_):
+            vv = torch.tensor([sg_], dtype=dt)
+            return float(m.price(S, M, T_, vv)) if which in ("lookback", "american_binary") else float(m.price(S, T_, vv))
+        if abs(got - sig) > 2 * prec:
             # ill-conditioned points (vega ~ 0): the price cannot resolve sigma in double precision;
             # there any volatility reproducing the price to float resolution is a correct answer
-            if which == "lookback":
-                p2 = float(m.price(S, M, T_, torch.tensor([got], dtype=dt)))
-            else:
-                p2 = float(m.price(S, T_, torch.tensor([got], dtype=dt)))
-            if abs(p2 - float(p)) <= 1e-13 * k:
+            if abs(reprice(got) - float(p)) <= 1e-13 * max(k, 1.0):
                 ctx.stats["iv_ill_conditioned"] += 1
                 continue
-            ctx.fail("implied volatility does not reproduce the generating volatility to precision", case,
-                     key=f"implied_volatility:{which}", detail={"iv": got})
+            ctx.fail("implied volatility does not reproduce the generating volatility to the requested precision", case,
+                     key=f"implied_volatility:{which}", detail={"iv": got, "precision": prec})
     return ctx.finish(
         rule="bisect on dyadic-coefficient affine/cubic/square families (increasing and decreasing, per-element coefficients, tensor and scalar "
              "brackets, targets at/near the bracket ends, precisions 2^-2..2^-20, max_iter in {0,3,100,1000}, lower>=upper), exp/logistic in floats, "
